@@ -1,2 +1,208 @@
-// RFC 9807 (OPAQUE-3DH) / RFC 9497 (OPRF) formulas as spec functions — the ORACLE.
-// Transcribed from the RFC text, independently of the code under verification.
+// =====================================================================================================
+// ORACLE — RFC 9807 (OPAQUE-3DH) and RFC 9497 (OPRF, mode 0) formulas as spec functions.
+// Transcribed from the RFC text, independently of the code under verification (TRUSTED transcription;
+// an executable twin in /verif/replay is checked against the RFC 9807 vectors shipped with the repo).
+// Primitives (Hash, MAC = HMAC, Extract/Expand = HKDF, the OPRF group, the KE group) are the abstract
+// spec functions of the prelude traits.
+// =====================================================================================================
+
+// ---- label constants (RFC 9807 sections 4, 5, 6; RFC 9497 section 3) -------------------------------
+pub open spec fn s_opaquev1() -> Seq<u8> { seq![0x4fu8, 0x50, 0x41, 0x51, 0x55, 0x45, 0x76, 0x31, 0x2d] }                      // "OPAQUEv1-"
+pub open spec fn s_opaque() -> Seq<u8> { seq![0x4fu8, 0x50, 0x41, 0x51, 0x55, 0x45, 0x2d] }                                    // "OPAQUE-"
+pub open spec fn s_handshake_secret() -> Seq<u8> { seq![0x48u8, 0x61, 0x6e, 0x64, 0x73, 0x68, 0x61, 0x6b, 0x65, 0x53, 0x65, 0x63, 0x72, 0x65, 0x74] } // "HandshakeSecret"
+pub open spec fn s_session_key() -> Seq<u8> { seq![0x53u8, 0x65, 0x73, 0x73, 0x69, 0x6f, 0x6e, 0x4b, 0x65, 0x79] }             // "SessionKey"
+pub open spec fn s_server_mac() -> Seq<u8> { seq![0x53u8, 0x65, 0x72, 0x76, 0x65, 0x72, 0x4d, 0x41, 0x43] }                    // "ServerMAC"
+pub open spec fn s_client_mac() -> Seq<u8> { seq![0x43u8, 0x6c, 0x69, 0x65, 0x6e, 0x74, 0x4d, 0x41, 0x43] }                    // "ClientMAC"
+pub open spec fn s_auth_key() -> Seq<u8> { seq![0x41u8, 0x75, 0x74, 0x68, 0x4b, 0x65, 0x79] }                                  // "AuthKey"
+pub open spec fn s_export_key() -> Seq<u8> { seq![0x45u8, 0x78, 0x70, 0x6f, 0x72, 0x74, 0x4b, 0x65, 0x79] }                    // "ExportKey"
+pub open spec fn s_private_key() -> Seq<u8> { seq![0x50u8, 0x72, 0x69, 0x76, 0x61, 0x74, 0x65, 0x4b, 0x65, 0x79] }             // "PrivateKey"
+pub open spec fn s_masking_key() -> Seq<u8> { seq![0x4du8, 0x61, 0x73, 0x6b, 0x69, 0x6e, 0x67, 0x4b, 0x65, 0x79] }             // "MaskingKey"
+pub open spec fn s_oprf_key() -> Seq<u8> { seq![0x4fu8, 0x70, 0x72, 0x66, 0x4b, 0x65, 0x79] }                                  // "OprfKey"
+pub open spec fn s_credential_response_pad() -> Seq<u8> {                                                                      // "CredentialResponsePad"
+    seq![0x43u8, 0x72, 0x65, 0x64, 0x65, 0x6e, 0x74, 0x69, 0x61, 0x6c, 0x52, 0x65, 0x73, 0x70, 0x6f, 0x6e, 0x73, 0x65, 0x50, 0x61, 0x64]
+}
+pub open spec fn s_opaque_derive_key_pair() -> Seq<u8> {                                                                       // "OPAQUE-DeriveKeyPair"
+    seq![0x4fu8, 0x50, 0x41, 0x51, 0x55, 0x45, 0x2d, 0x44, 0x65, 0x72, 0x69, 0x76, 0x65, 0x4b, 0x65, 0x79, 0x50, 0x61, 0x69, 0x72]
+}
+pub open spec fn s_opaque_derive_dh_key_pair() -> Seq<u8> {                                                                    // "OPAQUE-DeriveDiffieHellmanKeyPair"
+    seq![0x4fu8, 0x50, 0x41, 0x51, 0x55, 0x45, 0x2d, 0x44, 0x65, 0x72, 0x69, 0x76, 0x65, 0x44, 0x69, 0x66, 0x66, 0x69, 0x65, 0x48, 0x65,
+         0x6c, 0x6c, 0x6d, 0x61, 0x6e, 0x4b, 0x65, 0x79, 0x50, 0x61, 0x69, 0x72]
+}
+pub open spec fn s_derive_key_pair() -> Seq<u8> { seq![0x44u8, 0x65, 0x72, 0x69, 0x76, 0x65, 0x4b, 0x65, 0x79, 0x50, 0x61, 0x69, 0x72] } // "DeriveKeyPair"
+pub open spec fn s_oprfv1() -> Seq<u8> { seq![0x4fu8, 0x50, 0x52, 0x46, 0x56, 0x31, 0x2d] }                                     // "OPRFV1-"
+
+// ---- suite lengths ------------------------------------------------------------------------------------
+pub open spec fn nn() -> nat { 32 }
+pub open spec fn nh<CS: CipherSuite>() -> nat { <OprfHash<CS> as Digest>::OutputSize::n() }
+pub open spec fn npk<CS: CipherSuite>() -> nat { <CS::KeGroup as KeGroup>::PkLen::n() }
+pub open spec fn nsk<CS: CipherSuite>() -> nat { <CS::KeGroup as KeGroup>::SkLen::n() }
+pub open spec fn noe<CS: CipherSuite>() -> nat { <OprfGroup<CS> as Group>::ElemLen::n() }
+pub open spec fn nok<CS: CipherSuite>() -> nat { <OprfGroup<CS> as Group>::ScalarLen::n() }
+
+/// I2OSP(len(x), 2) || x
+pub open spec fn frame2(x: Seq<u8>) -> Seq<u8> { i2osp(x.len(), 2) + x }
+
+// ---- RFC 9807 6.4.2.1: Expand-Label / Derive-Secret ---------------------------------------------------
+/// CustomLabel = I2OSP(Length, 2) || I2OSP(len("OPAQUE-" || Label), 1) || "OPAQUE-" || Label || I2OSP(len(Context), 1) || Context
+pub open spec fn rfc_custom_label(length: nat, label: Seq<u8>, context: Seq<u8>) -> Seq<u8> {
+    i2osp(length, 2) + i2osp((s_opaque() + label).len(), 1) + s_opaque() + label + i2osp(context.len(), 1) + context
+}
+pub open spec fn rfc_expand_label<D: Hash>(secret: Seq<u8>, label: Seq<u8>, context: Seq<u8>) -> Seq<u8> {
+    D::expand(secret, rfc_custom_label(D::OutputSize::n(), label, context), D::OutputSize::n())
+}
+
+// ---- RFC 9807 6.4.2: 3DH transcript and key schedule --------------------------------------------------
+/// Preamble with the identities given raw (their 2-byte length prefixes are part of the formula)
+pub open spec fn rfc_preamble(context: Seq<u8>, id_u: Seq<u8>, ke1: Seq<u8>, id_s: Seq<u8>, cred_response: Seq<u8>, nonce_s: Seq<u8>, epk_s: Seq<u8>) -> Seq<u8> {
+    s_opaquev1() + frame2(context) + frame2(id_u) + ke1 + frame2(id_s) + cred_response + nonce_s + epk_s
+}
+pub open spec fn rfc_prk<D: Hash>(dh1: Seq<u8>, dh2: Seq<u8>, dh3: Seq<u8>) -> Seq<u8> { D::extract(Seq::<u8>::empty(), dh1 + dh2 + dh3) }
+pub open spec fn rfc_handshake_secret<D: Hash>(prk: Seq<u8>, th: Seq<u8>) -> Seq<u8> { rfc_expand_label::<D>(prk, s_handshake_secret(), th) }
+pub open spec fn rfc_session_key<D: Hash>(prk: Seq<u8>, th: Seq<u8>) -> Seq<u8> { rfc_expand_label::<D>(prk, s_session_key(), th) }
+pub open spec fn rfc_km2<D: Hash>(prk: Seq<u8>, th: Seq<u8>) -> Seq<u8> { rfc_expand_label::<D>(rfc_handshake_secret::<D>(prk, th), s_server_mac(), Seq::<u8>::empty()) }
+pub open spec fn rfc_km3<D: Hash>(prk: Seq<u8>, th: Seq<u8>) -> Seq<u8> { rfc_expand_label::<D>(rfc_handshake_secret::<D>(prk, th), s_client_mac(), Seq::<u8>::empty()) }
+/// server_mac = MAC(Km2, Hash(preamble))
+pub open spec fn rfc_server_mac<D: Hash>(prk: Seq<u8>, preamble: Seq<u8>) -> Seq<u8> { D::hmac(rfc_km2::<D>(prk, D::h(preamble)), D::h(preamble)) }
+/// client_mac = MAC(Km3, Hash(preamble || server_mac))
+pub open spec fn rfc_client_mac<D: Hash>(prk: Seq<u8>, preamble: Seq<u8>) -> Seq<u8> {
+    D::hmac(rfc_km3::<D>(prk, D::h(preamble)), D::h(preamble + rfc_server_mac::<D>(prk, preamble)))
+}
+
+// ---- RFC 9497 3.2.1 DeriveKeyPair, as used by DeriveDiffieHellmanKeyPair (RFC 9807 6.4.1) --------------
+/// contextString = "OPRFV1-" || I2OSP(mode = 0, 1) || "-" || identifier ; DST = "DeriveKeyPair" || contextString
+pub open spec fn rfc_dkp_dst<OC: voprf::CipherSuite>() -> Seq<u8> { s_derive_key_pair() + s_oprfv1() + seq![0u8] + seq![0x2du8] + OC::id() }
+/// deriveInput || I2OSP(counter, 1) with info = "OPAQUE-DeriveDiffieHellmanKeyPair"
+pub open spec fn rfc_dkp_input(seed: Seq<u8>, counter: int) -> Seq<u8> {
+    seed + i2osp(s_opaque_derive_dh_key_pair().len(), 2) + s_opaque_derive_dh_key_pair() + seq![counter as u8]
+}
+/// counter loop: first counter whose scalar is non-zero; a refusing HashToScalar or 256 zero scalars is DeriveKeyPairError
+pub open spec fn rfc_dkp_from<KG: KeGroup, OC: voprf::CipherSuite>(seed: Seq<u8>, counter: int) -> Result<KG::Sk, InternalError>
+    decreases 256 - counter
+{
+    if counter > 255 || counter < 0 { Err(InternalError::OprfError(voprf::Error::DeriveKeyPair)) } else {
+        match KG::h2s::<OC::Hash>(rfc_dkp_input(seed, counter), rfc_dkp_dst::<OC>()) {
+            Err(_) => Err(InternalError::OprfError(voprf::Error::DeriveKeyPair)),
+            Ok(s) => if !KG::sk_is_zero(s) { Ok(s) } else { rfc_dkp_from::<KG, OC>(seed, counter + 1) },
+        }
+    }
+}
+pub open spec fn rfc_derive_dh_keypair<KG: KeGroup, OC: voprf::CipherSuite>(seed: Seq<u8>) -> Result<KG::Sk, InternalError> {
+    rfc_dkp_from::<KG, OC>(seed, 0)
+}
+
+// ---- RFC 9807 4.1: envelope ------------------------------------------------------------------------------
+pub open spec fn rfc_auth_key<CS: CipherSuite>(rp: Seq<u8>, nonce: Seq<u8>) -> Seq<u8> { <OprfHash<CS> as Digest>::expand(rp, nonce + s_auth_key(), nh::<CS>()) }
+pub open spec fn rfc_export_key<CS: CipherSuite>(rp: Seq<u8>, nonce: Seq<u8>) -> Seq<u8> { <OprfHash<CS> as Digest>::expand(rp, nonce + s_export_key(), nh::<CS>()) }
+/// seed for the client's static key; this repository uses Nseed = Nsk of the key-exchange group
+pub open spec fn rfc_client_seed<CS: CipherSuite>(rp: Seq<u8>, nonce: Seq<u8>) -> Seq<u8> { <OprfHash<CS> as Digest>::expand(rp, nonce + s_private_key(), nsk::<CS>()) }
+pub open spec fn rfc_client_sk<CS: CipherSuite>(rp: Seq<u8>, nonce: Seq<u8>) -> Result<<CS::KeGroup as KeGroup>::Sk, InternalError> {
+    <CS::KeGroup as KeGroup>::derive_spec::<CS::OprfCs>(rfc_client_seed::<CS>(rp, nonce))
+}
+/// CleartextCredentials = server_public_key || I2OSP(len(server_identity),2) || server_identity || I2OSP(len(client_identity),2) || client_identity
+pub open spec fn rfc_cleartext_credentials(pk_s: Seq<u8>, id_s: Seq<u8>, id_u: Seq<u8>) -> Seq<u8> { pk_s + frame2(id_s) + frame2(id_u) }
+/// auth_tag = MAC(auth_key, envelope_nonce || cleartext_credentials)
+pub open spec fn rfc_auth_tag<CS: CipherSuite>(rp: Seq<u8>, nonce: Seq<u8>, pk_s: Seq<u8>, id_s: Seq<u8>, id_u: Seq<u8>) -> Seq<u8> {
+    <OprfHash<CS> as Digest>::hmac(rfc_auth_key::<CS>(rp, nonce), nonce + rfc_cleartext_credentials(pk_s, id_s, id_u))
+}
+
+// ---- RFC 9807 5 / 6.3: OPRF key, randomized password, masking ------------------------------------------------
+/// seed = Expand(oprf_seed, credential_identifier || "OprfKey", Nok); (oprf_key, _) = DeriveKeyPair(seed, "OPAQUE-DeriveKeyPair")
+pub open spec fn rfc_oprf_key<CS: CipherSuite>(oprf_seed: Seq<u8>, cred_id: Seq<u8>) -> Result<<OprfGroup<CS> as Group>::Scalar, voprf::Error> {
+    voprf::derive_key_spec::<CS::OprfCs>(<OprfHash<CS> as Digest>::expand(oprf_seed, cred_id + s_oprf_key(), nok::<CS>()), s_opaque_derive_key_pair())
+}
+/// oprf_output = Finalize(password, blind, evaluated_element)   (RFC 9497 3.3.1)
+pub open spec fn rfc_oprf_output<CS: CipherSuite>(pw: Seq<u8>, blind: <OprfGroup<CS> as Group>::Scalar, z: <OprfGroup<CS> as Group>::Elem) -> Seq<u8> {
+    <OprfHash<CS> as Digest>::h(voprf::finalize_input::<CS::OprfCs>(pw, <OprfGroup<CS> as Group>::smul(z, <OprfGroup<CS> as Group>::inv(blind))))
+}
+/// randomized_password = Extract("", oprf_output || Stretch(oprf_output))
+pub open spec fn rfc_randomized_pwd<CS: CipherSuite>(y: Seq<u8>, stretched: Seq<u8>) -> Seq<u8> { <OprfHash<CS> as Digest>::extract(Seq::<u8>::empty(), y + stretched) }
+pub open spec fn rfc_masking_key<CS: CipherSuite>(rp: Seq<u8>) -> Seq<u8> { <OprfHash<CS> as Digest>::expand(rp, s_masking_key(), nh::<CS>()) }
+/// credential_response_pad = Expand(masking_key, masking_nonce || "CredentialResponsePad", Npk + Nn + Nm)
+pub open spec fn rfc_pad<CS: CipherSuite>(masking_key: Seq<u8>, masking_nonce: Seq<u8>) -> Seq<u8> {
+    <OprfHash<CS> as Digest>::expand(masking_key, masking_nonce + s_credential_response_pad(), npk::<CS>() + nn() + nh::<CS>())
+}
+pub open spec fn xor(a: Seq<u8>, b: Seq<u8>) -> Seq<u8> { Seq::new(a.len(), |i: int| a[i] ^ b[i]) }
+
+// ---- lemmas about the oracle's helpers (proved) ------------------------------------------------------------------
+pub proof fn lemma_i2osp1(n: nat)
+    ensures i2osp(n, 1) == seq![(n % 256) as u8], fits(n, 1) <==> n <= 255
+{
+    reveal_with_fuel(i2osp, 3); reveal_with_fuel(fits, 3);
+    assert(i2osp(n, 1) =~= seq![(n % 256) as u8]);
+}
+pub proof fn lemma_i2osp2(n: nat)
+    ensures
+        n <= 65535 ==> i2osp(n, 2) == seq![(n / 256) as u8, (n % 256) as u8],
+        fits(n, 2) <==> n <= 65535,
+        i2osp(n, 2).len() == 2,
+{
+    reveal_with_fuel(i2osp, 4); reveal_with_fuel(fits, 4);
+    assert(i2osp(n, 2) =~= seq![((n / 256) % 256) as u8, (n % 256) as u8]);
+    if n <= 65535 { assert((n / 256) % 256 == n / 256); }
+    assert(n / 256 / 256 == 0 <==> n <= 65535);
+}
+pub proof fn lemma_xor_zip_full(a: Seq<u8>, b: Seq<u8>)
+    requires a.len() == b.len()
+    ensures xor_zip(a, b) == xor(a, b)
+{ assert(xor_zip(a, b) =~= xor(a, b)); }
+pub proof fn lemma_xor_involution(pad: Seq<u8>, x: Seq<u8>)
+    requires pad.len() == x.len()
+    ensures xor(pad, xor(pad, x)) == x, xor(pad, x).len() == pad.len()
+{
+    assert forall|i: int| 0 <= i < pad.len() implies pad[i] ^ (pad[i] ^ x[i]) == x[i] by {
+        let p = pad[i]; let y = x[i];
+        assert(p ^ (p ^ y) == y) by (bit_vector);
+    }
+    assert(xor(pad, xor(pad, x)) =~= x);
+}
+
+// ---- error conversion (specification of errors.rs `into_custom`) ----------------------------------------------
+pub open spec fn ie_into_custom<T>(e: InternalError) -> InternalError<T> {
+    match e {
+        InternalError::Custom(_) => arbitrary(),
+        InternalError::InvalidByteSequence => InternalError::InvalidByteSequence,
+        InternalError::SizeError { name, len, actual_len } => InternalError::SizeError { name, len, actual_len },
+        InternalError::PointError => InternalError::PointError,
+        InternalError::HashToScalar => InternalError::HashToScalar,
+        InternalError::HkdfError => InternalError::HkdfError,
+        InternalError::HmacError => InternalError::HmacError,
+        InternalError::KsfError => InternalError::KsfError,
+        InternalError::SealOpenHmacError => InternalError::SealOpenHmacError,
+        InternalError::IncompatibleEnvelopeModeError => InternalError::IncompatibleEnvelopeModeError,
+        InternalError::OprfError(e) => InternalError::OprfError(e),
+        InternalError::OprfInternalError(e) => InternalError::OprfInternalError(e),
+    }
+}
+pub open spec fn pe_into_custom<T>(e: ProtocolError) -> ProtocolError<T> {
+    match e {
+        ProtocolError::LibraryError(ie) => ProtocolError::LibraryError(ie_into_custom::<T>(ie)),
+        ProtocolError::InvalidLoginError => ProtocolError::InvalidLoginError,
+        ProtocolError::SerializationError => ProtocolError::SerializationError,
+        ProtocolError::ReflectedValueError => ProtocolError::ReflectedValueError,
+        ProtocolError::IdentityGroupElementError => ProtocolError::IdentityGroupElementError,
+    }
+}
+/// type invariant of `ProtocolError<Infallible>`: no `Custom(Infallible)` value exists
+pub open spec fn pe_nocustom(e: ProtocolError) -> bool {
+    match e { ProtocolError::LibraryError(ie) => !(ie is Custom), _ => true }
+}
+
+// ---- key pairs drawn from the caller's tape -------------------------------------------------------------------------
+/// the key pair `KeyPair::generate_random` draws at tape position `pos`: seed = next Nsk bytes, sk = DeriveDiffieHellmanKeyPair(seed)
+pub open spec fn kp_ok<KG: KeGroup, OC: voprf::CipherSuite>(id: int, pos: nat) -> bool { KG::derive_spec::<OC>(tape(id, pos, KG::SkLen::n())) is Ok }
+pub open spec fn kp_sk<KG: KeGroup, OC: voprf::CipherSuite>(id: int, pos: nat) -> KG::Sk { KG::derive_spec::<OC>(tape(id, pos, KG::SkLen::n()))->Ok_0 }
+
+// ---- the preamble as the code assembles it (identities arrive already framed) -----------------------------------------
+pub open spec fn preamble_flat(context: Seq<u8>, id_u_framed: Seq<u8>, ke1: Seq<u8>, id_s_framed: Seq<u8>, cred_response: Seq<u8>, nonce_s: Seq<u8>, epk_s: Seq<u8>) -> Seq<u8> {
+    s_opaquev1() + frame2(context) + id_u_framed + ke1 + id_s_framed + cred_response + nonce_s + epk_s
+}
+pub proof fn lemma_preamble_flat(context: Seq<u8>, id_u: Seq<u8>, ke1: Seq<u8>, id_s: Seq<u8>, l2: Seq<u8>, nonce_s: Seq<u8>, epk_s: Seq<u8>)
+    ensures rfc_preamble(context, id_u, ke1, id_s, l2, nonce_s, epk_s) == preamble_flat(context, frame2(id_u), ke1, frame2(id_s), l2, nonce_s, epk_s)
+{}
+/// client side of 3DH (RFC 9807 6.4.3): dh1 = DH(client_eph_sk, server_eph_pk), dh2 = DH(client_eph_sk, server_static_pk), dh3 = DH(client_static_sk, server_eph_pk)
+pub open spec fn ke3_prk<D: Hash, KG: KeGroup>(ke2: Ke2Message<D, KG>, st: Ke1State<KG>, server_s_pk: PublicKey<KG>, client_s_sk: PrivateKey<KG>) -> Seq<u8> {
+    rfc_prk::<D>(KG::dh(ke2.server_e_pk.0, st.client_e_sk.0), KG::dh(server_s_pk.0, st.client_e_sk.0), KG::dh(ke2.server_e_pk.0, client_s_sk.0))
+}
+pub open spec fn ke3_pre<D: Hash, KG: KeGroup>(context: Seq<u8>, id_u_framed: Seq<u8>, creq: Seq<u8>, id_s_framed: Seq<u8>, l2: Seq<u8>, ke2: Ke2Message<D, KG>) -> Seq<u8> {
+    preamble_flat(context, id_u_framed, creq, id_s_framed, l2, ke2.server_nonce@, KG::ser_pk(ke2.server_e_pk.0))
+}
